@@ -28,6 +28,10 @@ def setup(ctx):
     D, T = dv, ty
 
 
+NAMED_INTEGRALS = {"uniform": [1.0], "parabolic": [2.0 / 3.0], "rcos": [0.5, 0.5 + 1 / np.pi],
+                   "gaussian": [quad(lambda z: np.exp(-4 * np.log(2) * (3 * z) ** 2), -0.5, 0.5)[0]]}
+
+
 def make_input(rng, n, n_pol):
     shape = (2, n) if n_pol == 2 else (n,)
     s = (rng.normal(0, 1, shape) + 1j * rng.normal(0, 1, shape)) * 10 ** rng.uniform(-3, -1)
@@ -108,6 +112,11 @@ def w_grating(ctx, rng, i):
         ic = n // 2      # w = 0  <=>  optical frequency f0 = fc: the Bragg frequency
         apo_f = cap["apo"]
         integral = 1.0 if apo_f is None else quad(lambda z: float(apo_f(z)), -0.5, 0.5, limit=200)[0]
+        if apo_name in NAMED_INTEGRALS:
+            # a built-in name must select its documented profile every time it is used (the docstring and the code disagree on
+            # 'rcos' — cos(pi z) vs cos(2 pi z) — so either is accepted there; the other three are unambiguous)
+            ctx.check("fbg.named_profile", any(abs(integral - v) <= 1e-6 for v in NAMED_INTEGRALS[apo_name]),
+                      f"apodization='{apo_name}' integrated a profile whose integral is {integral:.6g}; the documented profile has {NAMED_INTEGRALS[apo_name]}")
         k_bragg = float(np.ravel(cap["k"])[ic])
         ctx.check("fbg.coupling", abs(k_bragg - kL) <= 1e-6 * kL and np.all(np.ravel(cap["s"]) == 0) and abs(float(np.ravel(cap["delta"])[ic])) <= 1e-6, f"solver inputs at the Bragg frequency: k={k_bragg!r} (kL={kL!r}), delta={float(np.ravel(cap['delta'])[ic])!r}")
         ctx.check("fbg.peak", abs(R2[ic] - np.tanh(kL * integral) ** 2) <= ODE, f"|H(f_Bragg)|^2 = {R2[ic]!r}, tanh^2(kL * integral of the apodisation = {integral:.6g}) = {np.tanh(kL * integral) ** 2!r} ({apo_name})")
@@ -198,6 +207,11 @@ def w_two_grids(ctx, rng, i):
         Hs.append(H)
     ctx.check("grid.history", np.max(np.abs(Hs[0] - Hs[2])) <= 1e-12, "FBG response on the first grid differs after a visit to another grid")
     ctx.case(("grids", a, b, apo), sample=dict(kL=kL, vdneff=vdneff, grid_sequence=[a, b, a]) if i < 2 else None)
+
+
+def FORM_TWINS():
+    import opticomlib.devices as dv
+    return [(dv, ["FBG"])]
 
 
 WORKLOADS = [
